@@ -20,6 +20,8 @@
      part is NotFound, a wrongly numbered part InvalidData, a truncated one UnexpectedEof, with the exact file left
      behind (the command creates its output before reading); whatever is left behind after a failure has no end
      marker: every reader reports UnexpectedEof on it and the strict recogniser rejects it.
+   * outside the format (rejected by the strict recogniser) but accepted by the command, recorded as an example: chunks
+     behind the last entry terminator and bytes behind AEND are dropped without an error.
    Outside: the --overwrite guard and the case output path = an input path (C20); the memmap build. *)
 From PNA Require Import Base Crc32 Name Codec Chunk Archive Entry Wf Concat.
 From PNA Require Import BaseFacts ChunkFacts ArchiveFacts EntryFacts WfFacts WfWriterFacts WfAgreeFacts WfSplitFacts
@@ -306,3 +308,16 @@ Check C13_concat_errors_example :
   concat_run [[ex_arch]; [firstn 100 ex_arch]] =
     (Some (write_header 0 ++ ArchiveFacts.ser_entries [ex_e1; ex_e2; ex_e1]), FinErr UnexpectedEof).
 Print Assumptions C13_concat_errors_example.
+
+Theorem C13_concat_tolerant_reader_example :
+  let u := mk (T "abCd") [x01] in
+  concat_cmd [[write_header 0 ++ ser_chunks (ex_e1 ++ [u]) ++ finalize ++ lit "anything"]] = Ok (write_raw_archive 0 [ex_e1]) /\
+  wf_archive (write_header 0 ++ ser_chunks (ex_e1 ++ [u]) ++ finalize) = false /\
+  concat_cmd [[write_header 0 ++ ser_chunks (ex_e1 ++ [u] ++ ex_e2) ++ finalize]] = Ok (write_raw_archive 0 [ex_e1; u :: ex_e2]).
+Proof. exact concat_tolerant_reader_ex. Qed.
+Check C13_concat_tolerant_reader_example :
+  let u := mk (T "abCd") [x01] in
+  concat_cmd [[write_header 0 ++ ser_chunks (ex_e1 ++ [u]) ++ finalize ++ lit "anything"]] = Ok (write_raw_archive 0 [ex_e1]) /\
+  wf_archive (write_header 0 ++ ser_chunks (ex_e1 ++ [u]) ++ finalize) = false /\
+  concat_cmd [[write_header 0 ++ ser_chunks (ex_e1 ++ [u] ++ ex_e2) ++ finalize]] = Ok (write_raw_archive 0 [ex_e1; u :: ex_e2]).
+Print Assumptions C13_concat_tolerant_reader_example.
